@@ -8,6 +8,12 @@ CLAIMED = {
          "Exploration: random operation histories (adversarial/colliding 32-bit hashes, threshold-crossing bursts) and an exhaustively enumerated space of short histories, each step compared in full against a Vec<(K,V)> model. Held-on-everything-explored, not a proof.",
          "Trusts the Vec reference model in harness/src/props/c11.rs; stable toolchain (index threshold 16).", "DESIGN.md §5 C11"),
 }
+CLAIMED["C01"] = ("differential property testing against CPython 3.11 (type-directed program generator, proptest-driven, shrinking)",
+    "Exploration: generated shared-core programs run at module level and inside def, compared with CPython (transcript, outcome class, final globals). Not a proof; constructs where Starlark deliberately differs from Python are outside the generator.",
+    "Trusts CPython 3.11 as reference semantics and the harness's canonical value encoding on both sides.", "DESIGN.md §5 C01")
+CLAIMED["C05"] = ("generated-input validity checking (token soups, lexer corner cases, mutated corpus, raw bytes, nesting families) with a span well-formedness predicate and a dialect-monotonicity metamorphic relation; worker-process isolation for crashes",
+    "Exploration: every generated text x dialect pair must parse to Ok/Err without crash; error and AST spans are checked by an independent visitor; wider dialects must accept the same tree.",
+    "Trusts the harness's AST visitor (astx.rs) and the re-lex check for literal spans; 16 MiB worker stack.", "DESIGN.md §5 C05")
 NOT_YET = {}
 
 def main():
